@@ -421,6 +421,14 @@ func (e *Exec) heapGet(s *State, o *Obj) Value {
 				v = arr
 			}
 		}
+		// a package-level scalar that nothing but init assigns has the value of its initialiser, when that is a
+		// constant expression over constants and other such globals (`var max = 9`, `var total = max + 20`)
+		if isScalar(o.Typ) && !isFloat(o.Typ) && e.w.globalStable(o.Global) {
+			if t := e.scalarInit(o.Global, 0); t != nil {
+				e.note("package-level variable " + o.Global.Name() + " has the value of its initialiser (no function assigns it)")
+				v = t
+			}
+		}
 		// package-level sentinel errors and function variables with initialisers are non-nil
 		switch x := v.(type) {
 		case *IfaceV:
@@ -826,6 +834,49 @@ func (e *Exec) globalPtr(g *ssa.Global) Value {
 	o := e.namedObj(name, g.Type().(*types.Pointer).Elem(), false)
 	o.Global = g
 	return &PtrV{Ref: &Ref{Obj: o}, Nil: False}
+}
+
+// scalarInit evaluates the initialiser of the scalar global g when it is built from constants, +, -, * and loads of
+// other stable scalar globals; nil otherwise.
+func (e *Exec) scalarInit(g *ssa.Global, depth int) *Term {
+	if depth > 4 {
+		return nil
+	}
+	var ev func(v ssa.Value) *Term
+	ev = func(v ssa.Value) *Term {
+		switch x := v.(type) {
+		case *ssa.Const:
+			t, _ := e.constVal(x).(*Term)
+			return t
+		case *ssa.UnOp:
+			if g2, ok := x.X.(*ssa.Global); ok && x.Op == token.MUL && e.w.globalStable(g2) && isScalar(g2.Type().(*types.Pointer).Elem()) {
+				return e.scalarInit(g2, depth+1)
+			}
+		case *ssa.BinOp:
+			a, b := ev(x.X), ev(x.Y)
+			if a == nil || b == nil || a.Sort.K != KBV || b.Sort.K != KBV || a.Sort.W != b.Sort.W {
+				return nil
+			}
+			switch x.Op {
+			case token.ADD:
+				return e.c.Add(a, b)
+			case token.SUB:
+				return e.c.Sub(a, b)
+			case token.MUL:
+				return e.c.Mul(a, b)
+			}
+		}
+		return nil
+	}
+	val := e.w.scalarInitStore(g)
+	if val == nil {
+		return nil
+	}
+	t := ev(val)
+	if t == nil || !t.Const {
+		return nil
+	}
+	return t
 }
 
 func (e *Exec) constVal(k *ssa.Const) Value {
